@@ -89,7 +89,8 @@ def history(draw):
     if roots is not None and draw(st.integers(0, 3)) == 0:
         change_roots = draw(st.lists(st.sampled_from(_HROOTS), min_size=1, max_size=2))
     return {"kind": "history", "lists": lists, "roots": roots, "roots2": change_roots,
-            "jobs": draw(st.sampled_from([None, 4]))}
+            "jobs": draw(st.sampled_from([None, 4])),
+            "repeat": sorted(set(draw(st.lists(st.integers(0, n - 1), max_size=2)))) if draw(st.integers(0, 2)) == 0 else []}
 
 
 def strategy(tier):
@@ -160,7 +161,26 @@ def run_case(case, ctx, verbose=False):
                     cmd["roots"] = roots
                 desc = {"commands": [cmd], "targets": {"t": ["<sfr>"]}, "default": "t"}
                 bm.write_description(ws, desc)
-                r = ws.build(target="t", pretend=True, jobs=case["jobs"])
+                if case.get("repeat") and i in case["repeat"]:
+                    # this list is built twice on ONE frontend: the second build has nothing to remove
+                    sess = bm.Session(ws, jobs=case["jobs"], pretend=True)
+                    try:
+                        r = sess.build(target="t")
+                        r_again = sess.build(target="t") if r.ok else None
+                    finally:
+                        sess.close()
+                    if r_again is not None:
+                        if r_again.timed_out or r_again.crashed() or not r_again.ok:
+                            return Outcome("repeated build %d on the same frontend failed: rc=%s %s" % (
+                                i + 1, r_again.rc, r_again.stderr[-300:]), classes=cls)
+                        again = [bm.unhx(e[1]) for e in r_again.events if e[0] == "remove"]
+                        if again:
+                            return Outcome("build %d repeated on the same frontend removed %s again although the "
+                                           "previous successful run listed exactly the current outputs %s" % (
+                                               i + 1, again, cur), classes=cls + ["same-frontend"])
+                        cls.append("same-frontend")
+                else:
+                    r = ws.build(target="t", pretend=True, jobs=case["jobs"])
                 if r.timed_out or r.crashed():
                     return Outcome("build %d crashed/hung rc=%s %s" % (i + 1, r.rc, r.stderr[-400:]), classes=cls)
                 if not r.ok:
